@@ -90,7 +90,7 @@ def validate(seed, name):
             else:
                 shutil.copyfile(src, full)
         cmd = str(meta.get("demo_cmd", ""))
-        cmd = re.sub(r"/tmp/seed2?/C\d\d", wt, cmd)
+        cmd = re.sub(r"/tmp/seed[23]?/C\d\d", wt, cmd)
         cmd = cmd.replace("<repo root>", wt)
         cmd = re.sub(r"cp SEED_[AB]/\S+ \S+ && ", "", cmd)  # the demo file is already placed
         res["demo_cmd"] = cmd
